@@ -87,6 +87,8 @@ impl DifficultyValues {
             half_catcher_width,
             palpable_objects.iter().take(take),
         );
+        #[cfg(rosu_pp_verif)]
+        crate::verif::view_probe::report_slice(0, 2, &diff_objects);
 
         let mut movement = Movement::new(half_catcher_width, clock_rate);
 
